@@ -22,6 +22,7 @@ struct Task {
     enum St { READY, BLOCKED, DONE } st = READY;
     void *wait_lock = nullptr;
     int wait_excl = 0;
+    int wait_event = -1;   // blocked in WAIT (the caller's own hand-over between its threads), not on a library lock
     VC vc;
     pthread_t th;
     const Json *ops = nullptr;
@@ -34,6 +35,8 @@ struct Sched {
     World *W = nullptr;
     std::vector<Task *> tasks;
     std::map<void *, LockSt> locks;
+    std::map<int, VC> events;        // signalled events (caller-level hand-over: a semaphore post/wait pair), with the signaller's clock
+    pthread_mutex_t ev_mu = PTHREAD_MUTEX_INITIALIZER;   // taken around signal and wake-up so that ThreadSanitizer sees the hand-over edge too
     std::map<const void *, Shadow> shadow;
     Rng rng;
     std::string strategy = "random";
@@ -97,6 +100,10 @@ static void switch_to(Task &me, int next) {
 }
 
 static void deadlock_verdict(const char *what) {
+    // tasks parked in WAIT with nobody left to signal are released first: that is the plan's affair, not the library's
+    bool released = false;
+    for (auto *t : S->tasks) if (t->st == Task::BLOCKED && t->wait_event >= 0) { t->st = Task::READY; S->events[t->wait_event]; released = true; }
+    if (released) { S->W->probe("sched.wait-never-signalled"); return; }
     if (!S->free_run) {
         S->W->viol("C18 C15", std::string("scheduler/") + what, std::string(what) + ": no task can make progress while some are unfinished (lock never released?)");
         S->free_run = true;
@@ -159,6 +166,34 @@ int sched_unlock(void *l) {
     S->W->trace.add("unlock", me.id);
     yield_point("unlock");
     return 0;
+}
+
+// --- caller-level hand-over between tasks ("thread B destroys the instance after thread A is done with it")
+void sched_signal(int e) {
+    if (!sched_active()) return;
+    Task &me = *S->tasks[t_tid];
+    pthread_mutex_lock(&S->ev_mu);
+    VC &v = S->events[e]; vc_join(v, me.vc); me.vc[me.id]++;
+    pthread_mutex_unlock(&S->ev_mu);
+    for (auto *t : S->tasks) if (t->st == Task::BLOCKED && t->wait_event == e) t->st = Task::READY;
+    S->W->trace.add("signal", e);
+    yield_point("signal");
+}
+void sched_wait(int e) {
+    if (!sched_active()) return;
+    Task &me = *S->tasks[t_tid];
+    yield_point("wait");
+    while (!S->events.count(e) && !S->free_run) {
+        me.st = Task::BLOCKED; me.wait_event = e;
+        int next = choose(me.id, false);
+        if (next < 0) { me.st = Task::READY; me.wait_event = -1; S->W->probe("sched.wait-never-signalled"); return; }   // nobody left to signal (e.g. a minimised plan): not a verdict about the library
+        switch_to(me, next);
+        me.st = Task::READY; me.wait_event = -1;
+    }
+    pthread_mutex_lock(&S->ev_mu);
+    if (S->events.count(e)) vc_join(me.vc, S->events[e]);
+    pthread_mutex_unlock(&S->ev_mu);
+    S->W->trace.add("waited", e);
 }
 
 // --- vector-clock race detector over annotated shared state
